@@ -23,26 +23,28 @@ import (
 var vErrInjected = errors.New("injected fault")
 
 type vWorld struct {
-	st         *vStore
-	usage      map[string]int // node -> recorded usage (resource manager)
-	capacity   map[string]int // node -> recorded capacity (resource manager)
-	slots      map[string]int // node -> instances the resource manager reports as deployable
-	processing map[string]int // node -> in-progress marker
-	created    int
-	allocsOK   int  // successful rmgr.Alloc calls so far
-	createSeen bool // an engine.VirtualizationCreate was attempted
-	leakRegion bool // the fault fired after an Alloc succeeded and before any create attempt
-	crashMode  bool // the "fault" is a crash of the core process: from that call on nothing has any effect
-	frozen     bool
-	repair     bool                    // GetNodeResourceInfo(fix=true) repairs usage
-	siteFaults map[string]map[int]bool // two-fault mode: site -> failing occurrences
-	siteCalls  map[string]int
-	applied    map[string]int // container id -> amount the engine applied
-	running    map[string]bool
-	calls      int
-	faultAt    int
-	site       string // where the fault fired
-	sites      []string
+	st            *vStore
+	usage         map[string]int // node -> recorded usage (resource manager)
+	capacity      map[string]int // node -> recorded capacity (resource manager)
+	slots         map[string]int // node -> instances the resource manager reports as deployable
+	processing    map[string]int // node -> in-progress marker
+	created       int
+	allocsOK      int  // successful rmgr.Alloc calls so far
+	createSeen    bool // an engine.VirtualizationCreate was attempted
+	leakRegion    bool // the fault fired after an Alloc succeeded and before any create attempt
+	crashMode     bool // the "fault" is a crash of the core process: from that call on nothing has any effect
+	frozen        bool
+	repair        bool                    // GetNodeResourceInfo(fix=true) repairs usage
+	siteFaults    map[string]map[int]bool // two-fault mode: site -> failing occurrences
+	siteCalls     map[string]int
+	closedStreams int
+	exitCode      int
+	applied       map[string]int // container id -> amount the engine applied
+	running       map[string]bool
+	calls         int
+	faultAt       int
+	site          string // where the fault fired
+	sites         []string
 }
 
 // fault reports whether the current fallible call is the one that fails.
